@@ -72,8 +72,17 @@ def expand(facts, body, t, depth=0, _stack=()):
             if len(whole) >= 2 and not partial and (t[0] == 'phi' or loc not in body._mutborrowed):
                 z = symbolizer(body)
                 alts = []
+                vals = []
                 for d in whole:
                     v = simplify(z.rvalue(d.rv, 0, (loc,)) if hasattr(d, 'rv') else z.call(d, 0, (loc,)))
+                    vals.append((d, v))
+                # a loop-carried variable (an accumulator: some definition mentions the variable itself) is state, not a choice
+                from .sym import walk as _walk
+                selfref = any(isinstance(x, tuple) and x and ((x[0] == 'phi' and x[1] == loc) or (x[0] == 'var' and len(x) > 2 and x[2] == loc))
+                              for d, v in vals for x in _walk(v))
+                if selfref:
+                    return t
+                for d, v in vals:
                     vf, at = _conds(body, d.bb)
                     alts.append((expand(facts, body, nosite(v), depth + 1, _stack + (loc,)), vf, at))
                 return ('choice', tuple(alts))
@@ -264,3 +273,38 @@ def flatten(tree, limit=64):
 def ret_alts(facts, body):
     """flat alternatives of the return value of `body` (multi-definition temporaries expanded, nested choices distributed)"""
     return flatten(ret_choice(facts, body))
+
+
+def consistent(alt):
+    """no two variant facts of the alternative about the same value exclude each other"""
+    seen = {}
+    for t, n in alt.variants:
+        k = repr(nosite(t))
+        seen[k] = (seen[k] & set(n)) if k in seen else set(n)
+        if not seen[k]:
+            return False
+    return True
+
+
+def ret_table(facts, body, scrutinee):
+    """{variant name of the value satisfying `scrutinee`: [returned value trees]} over all feasible paths (or-patterns that
+    share one arm are resolved per path)"""
+    al = ret_alts_paths(facts, body)
+    if al is None:
+        return None
+    out = {}
+    for a in al:
+        for f in flatten(a.value):
+            m = Alt(f.value, list(a.variants) + list(f.variants), list(a.atoms) + list(f.atoms))
+            if not consistent(m):
+                continue
+            names = None
+            for t, n in m.variants:
+                if scrutinee(core(t)):
+                    names = set(n) if names is None else names & set(n)
+            if names and len(names) == 1:
+                v = nosite(m.value)
+                out.setdefault(list(names)[0], [])
+                if v not in out[list(names)[0]]:
+                    out[list(names)[0]].append(v)
+    return out
